@@ -198,3 +198,23 @@ def call(f, *a, **k):
             return f(*a, **k)
         except Exception as e:  # noqa  (RecursionError included: unbounded recursion in the code is an exception it raised)
             return Exn(type(e).__name__)
+
+
+# digits of other scripts: `\d`, int() and str.isdecimal() accept them like 0-9 (the library reads numbers with `\d` and int())
+DIGIT_SCRIPTS = [0x0660, 0x06F0, 0x0966, 0xFF10, 0x0E50, 0x1D7CE]   # Arabic-Indic, Extended Arabic-Indic, Devanagari, Fullwidth, Thai, Mathematical bold
+
+
+def altdigits(r, s, p=1.0):
+    """the ASCII digits of s rewritten in one other script (with probability p; else unchanged)"""
+    if r.random() >= p:
+        return s
+    base = r.choice(DIGIT_SCRIPTS)
+    return ''.join(chr(base + ord(c) - 48) if '0' <= c <= '9' else c for c in s)
+
+
+def numstr(r, n, p_alt=0.12, p_zero=0.08, width=3):
+    """a spelling of the non-negative integer n that int() reads back: plain, zero-padded (up to `width` digits) or in another script"""
+    s = str(n)
+    if r.random() < p_zero and len(s) < width:
+        s = s.rjust(r.randint(len(s) + 1, width), '0')
+    return altdigits(r, s, p_alt)
